@@ -850,8 +850,23 @@ Definition w_expand_el (se : instant * instant) : xtree :=
 Definition w_caldata (c : comp_request) : xtree :=
   Elem (cn "calendar-data") [] (w_comp_sel c :: opt_list w_expand_el (cr_expand c)).
 
+(** comp is optional in calendar-data (9.6: "comp?"); without it the whole
+    object is asked for: all properties, all components.  The second form of
+    the element for such a request: *)
+Definition whole_cr (e : option (instant * instant)) : comp_request := CompReq "" true [] true [] e.
+Definition is_whole (c : comp_request) : bool :=
+  match c with
+  | CompReq nm ap ps ac cs _ =>
+    str_empty nm && ap && ac && match ps with [] => true | _ => false end
+    && match cs with [] => true | _ => false end
+  end.
+Definition w_caldata_nc (e : option (instant * instant)) : xtree :=
+  Elem (cn "calendar-data") [] (opt_list w_expand_el e).
+
 (** DAV:prop holding the calendar-data request next to another property, in
     the order of the examples of RFC 4791 section 7.8. *)
+Definition w_dprop_x (caldata : xtree) : xtree :=
+  Elem (dn "prop") [] [Elem (dn "getetag") [] []; caldata].
 Definition w_dprop (c : comp_request) : xtree :=
   Elem (dn "prop") [] [Elem (dn "getetag") [] []; w_caldata c].
 
@@ -872,6 +887,17 @@ Definition rfc_write_multiget (m : multiget) : xtree :=
 
 Definition rfc_write (r : request) : xtree :=
   match r with RQuery q => rfc_write_query q | RMultiget m => rfc_write_multiget m end.
+
+(** the same documents with an arbitrary calendar-data element [x] ... *)
+Definition rfc_write_x (x : xtree) (r : request) : xtree :=
+  match r with
+  | RQuery q => Elem (cn "calendar-query") [] [w_dprop_x x; Elem (cn "filter") [] [w_cf (q_cf q)]]
+  | RMultiget m => Elem (cn "calendar-multiget") [] (w_dprop_x x :: map w_href (mg_paths m))
+  end.
+Definition req_cr (r : request) : comp_request :=
+  match r with RQuery q => q_cr q | RMultiget m => mg_cr m end.
+(** ... in particular the form without comp, for a request for the whole object *)
+Definition rfc_write_nc (r : request) : xtree := rfc_write_x (w_caldata_nc (cr_expand (req_cr r))) r.
 
 (** ** 2b. Reader: strict about names, namespaces, required attributes, child
     order and cardinality; ignores comments, white space between elements,
@@ -1160,7 +1186,11 @@ Definition r_caldata (t : xtree) : option comp_request :=
   | Elem n _ k =>
     if name_eqb n (cn "calendar-data") && content_ok k then
       match elems k with
-      | [c] => r_comp c
+      | [] => Some (whole_cr None)
+      | [x] =>
+        if el_named (cn "expand") x then
+          match r_expand x with Some se => Some (whole_cr (Some se)) | None => None end
+        else r_comp x
       | [c; e] =>
         match r_comp c, r_expand e with
         | Some cr, Some se => Some (set_expand cr (Some se))
@@ -1303,6 +1333,19 @@ Definition normalise (r : request) : request :=
 Definition expressible (href_fmt : string -> string) (href_parse : string -> option string)
            (r : request) : bool :=
   valid href_fmt href_parse (normalise r).
+
+(** What a call of the client API denotes: a CalendarMultiGet without Paths
+    asks for the resource the report is addressed to (caldav/client.go,
+    MultiGetCalendar); every other value denotes itself. *)
+Definition denote (path : string) (r : request) : request :=
+  match r with
+  | RMultiget m =>
+    match mg_paths m with
+    | [] => RMultiget {| mg_paths := [path]; mg_cr := mg_cr m |}
+    | _ => r
+    end
+  | RQuery _ => r
+  end.
 
 (** The backend call a request denotes. *)
 Definition backend_call_of (path : string) (r : request) : backend_call :=
@@ -1502,9 +1545,10 @@ Definition client_agrees (path : string) (r : request) (body : xtree) (call : re
   && sb (res_call_eq_dec (canon_call (handle_report href_parse path body)) call).
 
 Definition client_spec_ok (path : string) (r : request) (body : xtree) (call : res backend_call) : bool :=
-  if expressible href_fmt href_parse r && fits_request r then
-    sb (opt_request_eq_dec (rfc_read href_parse body) (Some (normalise r)))
-    && sb (res_call_eq_dec call (Ok (backend_call_of path (normalise r))))
+  let r' := denote path r in
+  if expressible href_fmt href_parse r' && fits_request r' then
+    sb (opt_request_eq_dec (rfc_read href_parse body) (Some (normalise r')))
+    && sb (res_call_eq_dec call (Ok (backend_call_of path (normalise r'))))
   else true.
 
 (** Stream (b), server.  [doc] is the tokenised document the harness's own
@@ -1514,7 +1558,9 @@ Definition server_agrees (path : string) (doc : xtree) (call : res backend_call)
   sb (res_call_eq_dec (canon_call (handle_report href_parse path doc)) call).
 
 Definition server_in_domain (r : request) (doc : xtree) : bool :=
-  valid href_fmt href_parse r && fits_request r && variant_b (rfc_write href_fmt r) doc.
+  valid href_fmt href_parse r && fits_request r
+  && (variant_b (rfc_write href_fmt r) doc
+      || (is_whole (req_cr r) && variant_b (rfc_write_nc href_fmt r) doc)).
 
 Definition server_spec_ok (path : string) (r : request) (doc : xtree) (call : res backend_call) : bool :=
   if server_in_domain r doc
